@@ -293,7 +293,11 @@ fn blocked_probe_race(strategy: cb::BreakerStrategy, stale_ok: bool, second_requ
         let ends = check_paths(&log, St::Closed);
         let l = log.lock().unwrap().clone();
         let passed = rs.iter().filter(|r| r.is_some()).count();
-        if passed > 1 {
+        // once the stale completion has CLOSED the breaker, further requests pass it legitimately
+        // (and isolation's check-then-act may admit both of them): only without a close are two
+        // passes two probes of one Half-Open phase
+        let closed_once = l.iter().any(|e| e.1 == St::HalfOpen && e.2 == St::Closed);
+        if passed > 1 && !closed_once {
             panic!("ORACLE: two-probes: {} requests passed; log {:?}", passed, l);
         }
         outcome(format!("end={:?} events={} passed={}", ends[0].1, l.len(), passed));
